@@ -24,7 +24,9 @@ from .. import core
 
 LEVEL = "model_checking"
 
-KINDS = ("module", "nested", "lambda", "main")
+KINDS = ("module", "nested", "lambda", "main", "wrapped")
+# wrapped = a functools.wraps decorator: the cached object is the wrapper closure (its body carries the version),
+# the decorated function's own text never changes
 TAGS = {1: "v1", 2: "v2", 3: "v1", 4: "v1", 5: "v5"}
 # 3 = the text of 1 again, 4 = text of 1 moved down one line,
 # 5 = the text of 1 with ONE statement dedented (an indentation-only edit that changes the result)
@@ -42,7 +44,11 @@ def source(kind, k):
     body = _body_lines(base_tag, dedent=(k == 5))
     pre = "# moved\n" if k == 4 else ""
     log = "import os\n\ndef _log(tag, x):\n    with open(os.environ['VF_C12_LOG'], 'a') as fh:\n        fh.write('%s %r\\n' % (tag, x))\n\n"
-    if kind in ("module", "main"):
+    if kind == "wrapped":
+        text = ("import functools\n\ndef deco(fn):\n    @functools.wraps(fn)\n    def wrapper(x):\n"
+                + "".join("        %s\n" % l for l in body)
+                + "    return wrapper\n\n@deco\ndef f(x):\n    return ('undecorated', x)\n")
+    elif kind in ("module", "main"):
         text = "def f(x):\n" + "".join("    %s\n" % l for l in body)
     elif kind == "nested":
         text = "def make():\n    def f(x):\n" + "".join("        %s\n" % l for l in body) + "    return f\n\nf = make()\n"
@@ -462,8 +468,8 @@ def run(ctx):
     items = []
     for kind in KINDS:
         for sh in range(nsh):
-            items.append((kind, depth, not quick, sh, nsh, 4000 if quick else 40000))
-        if quick:
+            items.append((kind, depth - 1 if (quick and kind == "wrapped") else depth, not quick, sh, nsh, 4000 if quick else 40000))
+        if quick and kind != "wrapped":
             # code-object swaps (and the moved definition v4) at a smaller depth
             for sh in range(nsh):
                 items.append((kind, depth + 1, "swap", sh, nsh, 4000))
